@@ -97,11 +97,19 @@ fn gen_tx(r: &mut StdRng, big: bool) -> Transaction {
     let nin = *[0usize, 1, 2, 3, if big { 254 } else { 4 }, if big { 255 } else { 1 }].get(r.gen_range(0..6)).unwrap();
     let nout = *[0usize, 1, 2, 3, if big { 255 } else { 2 }, 1].get(r.gen_range(0..6)).unwrap();
     for _ in 0..nin { t.from.push(gen_slip(r)); }
-    for _ in 0..nout { t.to.push(gen_slip(r)); }
+    for i in 0..nout {
+        // as in every transaction produced by Transaction::sign: an output's index is its position
+        let mut s = gen_slip(r);
+        s.slip_index = i as u8;
+        t.to.push(s);
+    }
     let dl = *[0usize, 1, 2, 97, 300, if big { 65536 } else { 5 }].get(r.gen_range(0..6)).unwrap();
     t.data = (0..dl).map(|_| r.gen()).collect();
     t.transaction_type = [TransactionType::Normal, TransactionType::Fee, TransactionType::GoldenTicket, TransactionType::ATR,
         TransactionType::Vip, TransactionType::SPV, TransactionType::Issuance, TransactionType::BlockStake, TransactionType::Bound][r.gen_range(0..9)];
+    if t.transaction_type == TransactionType::GoldenTicket {
+        t.data = (0..97).map(|_| r.gen()).collect(); // the payload of a ticket has a fixed size
+    }
     t.txs_replacements = if r.gen_bool(0.7) { 1 } else { r.gen() };
     t.signature = bytes::<64>(r);
     let nh = r.gen_range(0..(if big { 9 } else { 3 }));
@@ -169,8 +177,10 @@ fn ghost_tree(g: &GhostChainSync) -> Value {
 }
 
 fn emit_codec(trace: &mut Trace, k: usize, fmt: &str, v: Value, hexs: String, dec: Value, predicted: i64, flags: Value) {
-    trace.emit(json!({"ev": "Codec", "scn": k, "i": 1, "fmt": fmt, "v": v, "hex": hexs, "dec": dec, "predicted": predicted,
-                      "flags": flags, "res": "ok"}));
+    let dec_ok = dec != json!("ERR");
+    let same = dec == v;
+    trace.emit(json!({"ev": "Codec", "scn": k, "i": 1, "fmt": fmt, "v": v, "hex": hexs, "dec_ok": dec_ok, "dec_same": same,
+                      "dec": if dec_ok { dec } else { json!({}) }, "predicted": predicted, "flags": flags, "res": "ok"}));
 }
 
 fn codec_mode(seed: u64, count: usize, out: &str) {
@@ -336,10 +346,9 @@ fn codec_mode(seed: u64, count: usize, out: &str) {
                     }
                     1 => {
                         let blk = gen_block(&mut r);
-                        let tree = json!({"tag": 3, "inner": "block", "body": block_tree(&blk, "header")});
-                        // Message::serialize sends blocks header-only
+                        let tree = json!({"tag": 3, "inner": "block", "body": block_tree(&blk, "full")});
                         let b = Message::Block(blk).serialize();
-                        let dec = match Message::deserialize(b.clone()) { Ok(Message::Block(x)) => json!({"tag": 3, "inner": "block", "body": block_tree(&x, "header")}), _ => json!("ERR") };
+                        let dec = match Message::deserialize(b.clone()) { Ok(Message::Block(x)) => json!({"tag": 3, "inner": "block", "body": block_tree(&x, "full")}), _ => json!("ERR") };
                         emit_codec(&mut trace, k, "msg", tree, hx(&b), dec, b.len() as i64, json!({"reenc": true}));
                     }
                     2 => {
@@ -368,7 +377,7 @@ fn codec_mode(seed: u64, count: usize, out: &str) {
             }
         });
         if let Err(p) = res {
-            trace.emit(json!({"ev": "Codec", "scn": k, "i": 1, "fmt": "?", "v": {}, "hex": "", "dec": "ERR", "predicted": -1, "flags": {}, "res": format!("Panic:{}", p)}));
+            trace.emit(json!({"ev": "Codec", "scn": k, "i": 1, "fmt": "?", "v": {}, "hex": "", "dec_ok": false, "dec_same": false, "dec": {}, "predicted": -1, "flags": {}, "res": format!("Panic:{}", p)}));
         }
     }
     trace.flush();
@@ -409,6 +418,17 @@ fn decode_mode(seed: u64, count: usize, out: &str) {
         let bb = blk.serialize_for_net(BlockType::Full);
         seeds.push(("block", bb.clone(), vec![0, 389, 393, 397, 401]));
         seeds.push(("message", [vec![3u8], bb].concat(), vec![1]));
+    }
+    {
+        // a block whose merkle root has to be recomputed by the receiver, carrying a placeholder
+        // transaction that claims to stand for millions of transactions
+        let mut blk = gen_block(&mut r);
+        blk.merkle_root = [0; 32];
+        let mut t = gen_tx(&mut r, false);
+        t.transaction_type = TransactionType::SPV;
+        t.txs_replacements = 3_000_000;
+        blk.transactions = vec![t];
+        seeds.push(("block", blk.serialize_for_net(BlockType::Full), vec![389 + 88]));
     }
     let rp = HandshakeResponse { public_key: bytes::<33>(&mut r), signature: bytes::<64>(&mut r), is_lite: false,
         block_fetch_url: "http://host:1/".into(), challenge: bytes::<32>(&mut r),
